@@ -50,14 +50,15 @@ pub(crate) struct Msg {
 
 impl Msg {
     pub(crate) fn new(optype: OperationType, predicate: Option<ActiveBlobPred>) -> Self {
-        Self {
+        #[cfg(feature = "verif")]
+        return Self {
             optype,
             predicate,
-            #[cfg(feature = "verif")]
             barrier: None,
-            #[cfg(feature = "verif")]
             barrier_flush_deferred: false,
-        }
+        };
+        #[cfg(not(feature = "verif"))]
+        Self { optype, predicate }
     }
 }
 
